@@ -9,7 +9,7 @@ const char *CHK_RULE = "one case = one stream of 2..12 generated lines (valid fo
                        "stream and once line by line on freshly initialised parsers (object memory zero-filled, garbage-filled, or the previous object re-initialised with cat_init); non-trivial = stream with >= 2 non-blank lines; distinct "
                        "by (sequence of reference line classes incl. newline style, table size)";
 
-static prng_t HA;
+static prng_t HA, HU, HE; static unsigned ev_pm;      /* HU: decisions of event handlers; HE: when the harness raises an event (a quarter of the cases: events come and go while the lines are answered) */
 static long lines_started; static int solo_line = -1;
 static bool hold_pending; static int hold_status, hold_delay;
 #define MAXL 16
@@ -20,7 +20,7 @@ static char detail[300];
 
 static cat_return_state policy(struct hcall *h)
 {
-        prng_t *p = &HA;
+        prng_t *p = h->fsm == FSM_U ? &HU : &HA;
         if ((h->kind == K_READ || h->kind == K_TEST) && pr_pct(p, 50) && h->max >= 12) *h->psize = (size_t)snprintf((char *)h->data, h->max, "~%u", pr_n(p, 1000));
         unsigned r = pr_n(p, 100);
         cat_return_state c;
@@ -32,11 +32,12 @@ static cat_return_state policy(struct hcall *h)
         else if (r < 91) c = CAT_RETURN_STATE_PRINT_CMD_LIST_OK;
         else if (r < 95) c = pr_pct(p, 50) ? CAT_RETURN_STATE_HOLD_EXIT_OK : CAT_RETURN_STATE_HOLD_EXIT_ERROR;
         else c = (cat_return_state)(20 + (int)pr_n(p, 4));
+        if (h->fsm == FSM_U && (c == CAT_RETURN_STATE_HOLD || c == CAT_RETURN_STATE_HOLD_EXIT_OK || c == CAT_RETURN_STATE_HOLD_EXIT_ERROR)) c = CAT_RETURN_STATE_OK;      /* an event must not decide how a held command ends: that would be a legitimate dependence on its timing */
         if (c == CAT_RETURN_STATE_HOLD) { hold_pending = true; hold_status = (int)pr_n(p, 2); hold_delay = (int)pr_n(p, 7); }     /* the release comes 0..6 service calls later (a logical, per-line delay: identical in the stream and in the single-line run) */
         return c;
 }
 /* variable hooks: a few fail at random (same draw in both runs), and a write hook also decides by the size it is told (what it is for): a size left over from an earlier line then changes the answer */
-static int vpolicy(int ci, int vi, int dir, size_t ws) { (void)ci; if (pr_pct(&HA, 3)) return 1; return dir == 1 && (ws * 7 + (size_t)vi) % 11 == 3; }
+static int vpolicy(int ci, int vi, int dir, size_t ws) { (void)ci; if (pr_pct(PHASE == 1 ? &HU : &HA, 3)) return 1; return dir == 1 && (ws * 7 + (size_t)vi) % 11 == 3; }
 static void seed_line(long li) { pr_seed(&HA, CUR_SEED * 131 + (uint64_t)CUR_CASE, (uint64_t)li + 77); }
 static void on_read(size_t off, uint8_t ch)
 {
@@ -50,7 +51,7 @@ static void on_read(size_t off, uint8_t ch)
 /* newline style of every unit answering a line */
 static void on_unit(bool isA, bool raw, const char *text, size_t len, bool lead, bool trail)
 {
-        (void)isA;
+        if (!isA) return;           /* the property speaks of the command's response; the newline style of event units follows the interleaving (DESIGN 3.2) */
         if (solo_line >= 0) return;
         long li = lf_delivered - 1;
         if (li < 0 || li >= nlines) return;
@@ -70,6 +71,7 @@ static bool run_stream(int fillmode, const uint8_t *vars)
         POLICY = policy; VPOLICY = vpolicy; ON_READ = on_read; ON_UNIT = on_unit;
         long bound = 20000 + 80 * (long)(INLEN + 4) * ((long)W.ncmds + 3);
         for (long i = 0; i < bound; i++) {
+                if (ev_pm && INPOS < INLEN && pr_n(&HE, 1000) < ev_pm) { (void)cat_trigger_unsolicited_event(W.at, W.cmd[pr_n(&HE, (unsigned)W.ncmds)], pr_pct(&HE, 50) ? CAT_CMD_TYPE_READ : CAT_CMD_TYPE_TEST); CNT("events_raised_while_lines_are_answered"); }
                 cat_status s = svc();
                 if (hold_pending && hold_delay-- <= 0) { hold_pending = false; cat_hold_exit(W.at, hold_status ? CAT_STATUS_ERROR : CAT_STATUS_OK); }
                 if (s == CAT_STATUS_OK && INPOS >= INLEN) return true;
@@ -122,6 +124,8 @@ void chk_run_case(uint64_t seed, long c, bool is_sweep)
         eng_gen_table();
         nvarbytes = w_total_var_bytes();
         uint8_t *v0 = xalloc(nvarbytes + 1); w_save_vars(v0);
+        ev_pm = chance(25) ? 20 + rn(120) : 0; pr_seed(&HE, rnd(), 77); pr_seed(&HU, rnd(), 78);
+        if (ev_pm) CNT("streams_with_background_events");
         in_reset();
         nlines = 2 + (int)rn(11);
         for (int l = 0; l < nlines; l++) {
@@ -138,7 +142,7 @@ void chk_run_case(uint64_t seed, long c, bool is_sweep)
         out_reset();
         bool q = run_stream((int)rn(2), v0);
         if (!q) { inconclusive("stream run did not reach quiescence (C15's subject)"); return; }
-        seq_n = OUTN < sizeof seq_out ? OUTN : sizeof seq_out; memcpy(seq_out, OUTB, seq_n);
+        seq_n = 0; for (size_t i = 0; i < OUTN && seq_n < sizeof seq_out; i++) if (OUTP[i] == 'A') seq_out[seq_n++] = OUTB[i];      /* bytes of the command producer */
         /* line by line on fresh parsers */
         cat_n = 0; size_t ls = 0; int li = 0;
         for (size_t i = 0; i < all_len && !case_failed(); i++) {
@@ -150,7 +154,7 @@ void chk_run_case(uint64_t seed, long c, bool is_sweep)
                 seed_line(li);
                 out_reset();
                 if (!run_stream(li % 3 == 2 ? 3 : (li & 1), li < nsnap && snap[li] ? snap[li] : v0)) {      /* fresh zeroed / fresh garbage-filled / the previous line's object re-initialised with cat_init */ inconclusive("solo run did not reach quiescence"); solo_line = -1; return; }
-                if (cat_n + OUTN <= sizeof cat_out) { memcpy(cat_out + cat_n, OUTB, OUTN); cat_n += OUTN; }
+                for (size_t q = 0; q < OUTN && cat_n < sizeof cat_out; q++) if (OUTP[q] == 'A') cat_out[cat_n++] = OUTB[q];
                 ls = i + 1; li++;
         }
         solo_line = -1;
